@@ -27,6 +27,9 @@ Items8 == {Star} \cup {ColItem(q, c, al) : q \in Quals8, c \in Names8, al \in {"
 Lists8 == {<<i>> : i \in Items8} \cup {<<i, j>> : i \in Items8 \ {Star}, j \in {ColItem("", "a", ""), ColItem("", "s", "x"), Item("avg", Ref("", "g"), NoCmp, ""), Item("count", Ref("", ""), NoCmp, "")}}
 Orders8 == {<<>>} \cup {<<Ord(q, c, d)>> : q \in {"", "t8"}, c \in Names8 \cup {"x", "e"}, d \in {"asc", "desc"}}
            \cup {<<Ord("", "a", "asc"), Ord("", "s", "desc")>>, <<Ord("", "c", "desc"), Ord("", "g", "asc")>>}
+\* two sort keys, every pair of columns: rows that tie on the first key are compared on the second, which may hold a NULL
+\* in either of them (run against every table, see check_c18)
+Orders8Pairs == {<<Ord("", c1, d), Ord("", c2, "asc")>> : c1 \in {"a", "s", "c", "g"}, c2 \in {"a", "s", "c", "g"}, d \in {"asc", "desc"}}
 Groups8 == {<<>>} \cup {<<Ref(q, c)>> : q \in {"", "t8"}, c \in Names8 \cup {"x"}} \cup {<<Ref("", "a"), Ref("", "s")>>}
 Froms8 == {<<From1("t8", "")>>, <<From1("t8", "t8")>>, <<From1("nosuch", "")>>,
            <<From1("t8", ""), [tbl |-> "t8", alias |-> "u", jt |-> "left", on |-> << <<Cmp(Col("t8", "a"), "=", Col("u", "g"))>> >>]>>,
@@ -82,5 +85,5 @@ LimOffs8 == LimOffs \cup {[limit |-> -2, offset |-> o] : o \in {-1, 0, 1, 5}} \c
 
 ASSUME /\ Out("tables8", Tables8) /\ Out("wheres8", Wheres8) /\ Out("lists8", Lists8) /\ Out("orders8", Orders8)
        /\ Out("groups8", Groups8) /\ Out("froms8", Froms8) /\ Out("dmls8", Dmls8) /\ Out("limoffs8", LimOffs8)
-       /\ Out("catdmls8", CatDmls8) /\ Out("catprobes8", {CatProbes8}) /\ Out("degenerate8", {Degenerate8})
+       /\ Out("orders8pairs", Orders8Pairs) /\ Out("catdmls8", CatDmls8) /\ Out("catprobes8", {CatProbes8}) /\ Out("degenerate8", {Degenerate8})
 =============================================================================
